@@ -63,6 +63,11 @@ var rules = []rule{
 		// outside its internal mutex)
 		"sync": {fac + "vsync", "sync"},
 	}, nil, nil},
+	// the client limiter: scheduling points at function, loop and if/else
+	// block entries, but never inside function literals - those are the
+	// callbacks that the concurrent map runs with a bucket lock held, and a
+	// goroutine sleeping there would stop the bubble's clock
+	{"internal/limiter", nil, nil, []string{"client_limiter.go:blocks"}},
 	{"internal/pool", map[string][2]string{
 		"github.com/IrineSistiana/bytespool": {fac + "vbytes", "bytespool"},
 		"github.com/IrineSistiana/gopool":    {fac + "vgopool", "gopool"},
@@ -135,9 +140,13 @@ func main() {
 			b, err := os.ReadFile(src)
 			must(err)
 			wantY := false
+			blocksOnly = false
 			for _, y := range r.yields {
 				if y == "*" || y == name {
 					wantY = true
+				}
+				if y == name+":blocks" {
+					wantY, blocksOnly = true, true
 				}
 			}
 			nb, changed, err := rewrite(src, b, r.swaps, wantY)
@@ -246,6 +255,10 @@ func main() {
 
 // rewrite swaps import paths; the number of lines is unchanged and a //line
 // directive keeps positions pointing at the real file.
+// blocksOnly: the file being rewritten gets its scheduling points at function,
+// loop and if/else block entries, and none inside function literals.
+var blocksOnly bool
+
 func rewrite(path string, src []byte, swaps map[string][2]string, yields bool) ([]byte, bool, error) {
 	fset := token.NewFileSet()
 	mode := parser.ImportsOnly | parser.ParseComments
@@ -274,7 +287,20 @@ func rewrite(path string, src []byte, swaps map[string][2]string, yields bool) (
 				}
 				body = x.Body
 			case *ast.FuncLit:
+				if blocksOnly {
+					return false
+				}
 				body = x.Body
+			case *ast.IfStmt:
+				if blocksOnly {
+					off := fset.Position(x.Body.Lbrace).Offset + 1
+					edits = append(edits, edit{off, off, " vsimy.Y();"})
+					n++
+					if eb, ok := x.Else.(*ast.BlockStmt); ok {
+						off := fset.Position(eb.Lbrace).Offset + 1
+						edits = append(edits, edit{off, off, " vsimy.Y();"})
+					}
+				}
 			case *ast.ForStmt:
 				body = x.Body
 			case *ast.RangeStmt:
